@@ -93,6 +93,11 @@ def run_check(prop, tier, repo=None, quiet=False):
                     false_alarms=[r["name"] for r in res if r["status"] == "FALSE-ALARM"],
                     skipped=[(r["name"], r.get("status")) for r in res if r["status"] in ("skipped", "does-not-compile")],
                 )
+                from .selftest import cross_negatives
+                with contextlib.redirect_stdout(buf):
+                    xbad = cross_negatives(repo, 8, only_props=[prop], exclude_own=True)
+                ctx.extra["mutant_selftest"]["other_properties_behaviour_preserving_mutants"] = dict(
+                    runs=getattr(cross_negatives, "last_runs", None), not_silent=[r["name"] for r in xbad])
                 print("selftest: %d mutants of %s: %d caught, %d silent-as-expected, %d missed, %d false alarms, %d skipped" % (
                     len(res), prop, len(ctx.extra["mutant_selftest"]["caught"]), len(ctx.extra["mutant_selftest"]["silent_on_behaviour_preserving"]),
                     len(ctx.extra["mutant_selftest"]["missed"]), len(ctx.extra["mutant_selftest"]["false_alarms"]), len(ctx.extra["mutant_selftest"]["skipped"])))
